@@ -10,7 +10,7 @@ import copy
 import importlib
 import re
 
-PROP_GROUPS = {'C18': ['fetcher'], 'C20': ['sql'], 'C16': ['concat', 'concat_map', 'duplicate'], 'C12': ['sortkey'], 'C04': ['driver'], 'C15': ['fields', 'delete_schema', 'select_schema', 'get_type'], 'C01': ['flow'], 'C07': ['flow', 'ejson', 'ejson_hook'], 'C11': ['join'], 'C02': ['join', 'get_type'], 'C10': ['matcher'], 'C14': ['handlers', 'vloop'], 'C17': ['rows'], 'C13': ['load']}
+PROP_GROUPS = {'C18': ['fetcher', 'producer'], 'C20': ['sql'], 'C16': ['concat', 'concat_map', 'duplicate'], 'C12': ['sortkey'], 'C04': ['driver'], 'C15': ['fields', 'delete_schema', 'select_schema', 'get_type'], 'C01': ['flow'], 'C07': ['flow', 'ejson', 'ejson_hook'], 'C11': ['join'], 'C02': ['join', 'get_type'], 'C10': ['matcher'], 'C14': ['handlers', 'vloop'], 'C17': ['rows'], 'C13': ['load']}
 
 
 # ---------------------------------------------------------------- encoding
@@ -645,6 +645,41 @@ def run_fetcher(ctx, b, n):
             for want, real in (('q_internal', finals[k]), ('expected_nones', workers - nones)):
                 op = {'op': 'pyeval', 'fn': 'par_fetcher_body', 'mode': 'value', 'args': [], 'want': want, 'env': env, 'ext': ext}
                 b.add_op(op, 'par_fetcher_body', {'ok': real}, case=[item, exp_before, len(before), want])
+    b.flush()
+
+
+def run_producer(ctx, b, n):
+    """parallelize's producer loop: the real `producer` on list-backed queues against the translated loop"""
+    PZ = importlib.import_module('dataflows.processors.parallelize')
+    rng = ctx.rng('pycorr-producer')
+
+    class Q:
+        def __init__(self):
+            self.items = []
+
+        def put(self, v):
+            self.items.append(v)
+
+    for _ in range(max(2, n // 3)):
+        rows = [rng.randint(0, 9) for _ in range(rng.randint(0, 7))]
+        pick = rng.choice([lambda r: r % 2 == 0, lambda r: r > 4, lambda r: True, lambda r: False])
+        workers = rng.randint(1, 3)
+        qin, qint, errors = Q(), Q(), []
+        PZ.producer(iter(rows), qin, qint, workers, pick, errors)
+        real_in = qin.items[:len(qin.items) - workers]          # the end markers for the workers follow the rows
+        if errors or qin.items[len(real_in):] != [None] * workers:
+            ctx.report.disagreements.append({'op': 'pyeval:producer', 'case': [rows, workers], 'real': repr((errors, qin.items))[:200], 'model': None})
+            continue
+        ext, a, c = [], [], []
+        for r in rows:
+            ext.append(['predicate', [to_pv(r)], to_pv(bool(pick(r)))])
+            tgt = a if pick(r) else c
+            ext.append(['.put!', [to_pv(list(tgt)), to_pv(r)], to_pv(tgt + [r])])
+            tgt.append(r)
+        env = [['res', to_pv(rows)], ['q_in', to_pv([])], ['q_internal', to_pv([])]]
+        for want, real in (('q_in', real_in), ('q_internal', qint.items)):
+            op = {'op': 'pyeval', 'fn': 'par_producer_loop', 'mode': 'value', 'args': [], 'want': want, 'env': env, 'ext': ext}
+            b.add_op(op, 'par_producer_loop', {'ok': real}, case=[rows, want])
     b.flush()
 
 
@@ -1304,7 +1339,7 @@ def run_flow(ctx, b, n):
     b.flush()
 
 
-RUNNERS = {'fetcher': run_fetcher, 'concat_map': run_concat_map, 'sql': run_sql, 'duplicate': run_duplicate, 'get_type': run_get_type, 'select_schema': run_select_schema, 'delete_schema': run_delete_schema, 'concat': run_concat, 'ejson_hook': run_ejson_hook, 'sortkey': run_sortkey, 'ejson': run_ejson, 'driver': run_driver, 'fields': run_fields, 'flow': run_flow, 'load': run_load, 'vloop': run_vloop, 'join': run_join, 'matcher': run_matcher, 'handlers': run_handlers, 'rows': run_rows}
+RUNNERS = {'producer': run_producer, 'fetcher': run_fetcher, 'concat_map': run_concat_map, 'sql': run_sql, 'duplicate': run_duplicate, 'get_type': run_get_type, 'select_schema': run_select_schema, 'delete_schema': run_delete_schema, 'concat': run_concat, 'ejson_hook': run_ejson_hook, 'sortkey': run_sortkey, 'ejson': run_ejson, 'driver': run_driver, 'fields': run_fields, 'flow': run_flow, 'load': run_load, 'vloop': run_vloop, 'join': run_join, 'matcher': run_matcher, 'handlers': run_handlers, 'rows': run_rows}
 
 
 def run(ctx, groups=None, n=None):
